@@ -4,7 +4,7 @@ import Rivaas.Spec.Gates
 Driver for C17. The first token after the id is the gate kind.
 
   B <limit> <skip> <cl: A | G | V int> <body> <eofWithLast> <n> {D k | Z | F}* <dflt> <n> cap* => <status> <ran> <err N|E|L|O> <data>
-  A <n> {user pass}* <realm> <auth> <dec: 0 | 1 bytes> => <ran> <status> <www: 0 | 1 s> <user>
+  A <skip> <n> {user pass}* <realm> <auth> <dec: 0 | 1 bytes> => <ran> <status> <www: 0 | 1 s> <user>
   C <n> opt* <origin> <funcSays> <isOptions> => <ran> <status> acao acac expose methods headers maxage   (each 0 | 1 s)
       opt = O n s* | A b | M n s* | H n s* | E n s* | K b | X n | F b
   M <n> opt* <method> <csrfVerified> <clZero> <n>{name val}* <n>{name val}* <n>{raw upper}* <n>{raw norm}* => <ran> <seen> <original>
@@ -76,12 +76,13 @@ def showBodyObs (o : Body.Obs) : String :=
 
 /-! ### basicauth -/
 
-def pAuthReq : P Auth.Req := do
+def pAuthReq : P (Bool × Auth.Req) := do
+  let skip ← bool
   let users ← list (pair str str)
   let realm ← str
   let auth ← str
   let dec ← opt str
-  pure { users, realm, auth, dec }
+  pure (skip, { users, realm, auth, dec })
 
 def pAuthObs : P Auth.Obs := do
   let ran ← bool
@@ -204,7 +205,8 @@ def step (line : String) : String :=
   | some (id, inp, obs) =>
     match inp with
     | "B" :: rest => decideCase id rest obs pBodyReq pBodyObs Body.serve Body.specOK (fun _ => "-") showBodyObs
-    | "A" :: rest => decideCase id rest obs pAuthReq pAuthObs Auth.serve Auth.specOK (fun _ => "-") showAuthObs
+    | "A" :: rest => decideCase id rest obs pAuthReq pAuthObs (fun sr => Auth.gate sr.1 sr.2)
+                       (fun sr o => Auth.gateSpecOK sr.1 sr.2 o) (fun _ => "-") showAuthObs
     | "C" :: rest => decideCase id rest obs pCorsReq pCorsObs Cors.serve
                        (fun r o => Cors.specOK (Cors.config r.opts) r o) (fun _ => "-") showCorsObs
     | "M" :: rest => decideCase id rest obs pMethodReq pMethodObs Method.serve
